@@ -542,12 +542,17 @@ mm_sparse = _mk(
     'to the full matrix; well-formed sorted CRS; throws exactly on wrong kind / bad size line / range beyond n / truncation / '
     'unparsable data line; every vector access in bounds for any index values in the file',
     '#define N_LO 0\n',
-    variants=[{'NMAX': 3, 'ZMAX': 3, 'SYM': 1}, {'NMAX': 3, 'ZMAX': 3, 'SYM': 0}],
-    thorough=[{'NMAX': 3, 'ZMAX': 4, 'SYM': 1}, {'NMAX': 3, 'ZMAX': 4, 'SYM': 0},
-              {'NMAX': 3, 'ZMAX': 3, 'SYM': 1, 'CXC_COL_T': 'ptrdiff_t', 'CXC_PTR_T': 'ptrdiff_t'}],
-    bound='every entry stream with 0 <= n, m <= 3, nnz <= 3 (thorough 4) in the size line, <= 3 (4) data lines present, index tokens in [-1, 5] '
-          '(inside and outside the matrix, duplicates, any order), any value tokens, any per-line parse failure, symmetric and general '
-          'storage, every caller row range (64-bit symbolic)')
+    # measured (minisat, shared host): symmetric n,nnz <= 2: 40 s; general n <= 3, nnz <= 2: 31 s; symmetric n <= 3, nnz <= 2: 133 s;
+    # symmetric n <= 2, nnz <= 3: 267 s; general n, nnz <= 3: 123 s; symmetric n, nnz <= 3: > 600 s (the SAT time is in the index-safety
+    # obligations of the scatter pass of the RANGE read: positions computed from prefix sums of symbolic counts; kissat, narrow input
+    # generators, concrete n / nnz and a split into "range read vs spec" / "two reads compared" were measured and do not help)
+    variants=[{'NMAX': 2, 'ZMAX': 2, 'SYM': 1}, {'NMAX': 3, 'ZMAX': 2, 'SYM': 0}],
+    thorough=[{'NMAX': 3, 'ZMAX': 2, 'SYM': 1}, {'NMAX': 2, 'ZMAX': 3, 'SYM': 1}, {'NMAX': 3, 'ZMAX': 3, 'SYM': 0},
+              {'NMAX': 2, 'ZMAX': 2, 'SYM': 1, 'CXC_COL_T': 'ptrdiff_t', 'CXC_PTR_T': 'ptrdiff_t'}],
+    bound='every entry stream with 0 <= n, m <= 2 and nnz <= 2 for symmetric storage, n, m <= 3 and nnz <= 2 for general storage '
+          '(thorough: symmetric n <= 3 / nnz <= 2 and n <= 2 / nnz <= 3, general n, nnz <= 3), as many data lines present, index tokens in '
+          '[-1, n+2] (inside and outside the matrix, duplicates, any order), any value tokens, any per-line parse failure, every '
+          'caller row range that is not inverted (64-bit symbolic)')
 
 # Candidate defects (see the report of the authoring agent): the reader validates neither the row/column indices of a data line
 # nor the sign of the row count.  The strict clauses are kept in a unit of their own that is only listed when
